@@ -31,7 +31,7 @@ class WCheck:
         knobs = swarm_knobs(ch, **self.knob_over)
         knobs.peer_emulation = bool(ch.pick("k.peer", 2))
         nworkers = 2 + ch.pick("w.n", 2)
-        strategy = ch.choice("w.strategy", ["random", "pct", "random"])
+        strategy = ch.choice("w.strategy", ["random", "pct", "random", "stall"])
         depth = 1 + ch.pick("w.depth", 3)
         info: dict[str, Any] = {"nworkers": nworkers, "strategy": strategy, "pct_depth": depth, "knobs": knobs.to_dict()}
         st = None
